@@ -1092,8 +1092,9 @@ Proof.
     destruct (execs_ins_keeps _ HP (db_of tg)) as [Ku _]. fold dB in Ku.
     assert (Hgu : gk_users (restart tA dB) = db_users tg) by (change (gk_users (restart tA dB)) with (d_users dB); rewrite Ku; reflexivity).
     rewrite (gatekeeper_replay_done tA (gk_height tA + 1) tg (restart tA dB) HI HG eq_refl Hgu). cbn [bind]. intros HWB.
+    assert (HIr0 : Inv (restart tA dB)) by (apply recover_inv; unfold dB; apply execs_inv; apply dbinv_of_inv; exact HIg).
     assert (HIr : Inv (set_gk_height (restart tA dB) (gk_height tA + 1))).
-    { eapply inv_frame; [|apply recover_inv; unfold dB; apply execs_inv; apply dbinv_of_inv; exact HIg]. repeat split. }
+    { apply (inv_frame (restart tA dB)); [|exact HIr0]. generalize (restart tA dB). intros t0. repeat split. }
     destruct (w_block_connected_frame sc2 _ hash txs _ tBw HIr HWB) as [_ [_ [Vg _]]].
     intros u. rewrite Vg, Wg. change (gk_users (set_gk_height (restart tA dB) (gk_height tA + 1))) with (gk_users (restart tA dB)).
     rewrite Hgu. symmetry. apply (inv_sync tg HIg). }
@@ -1109,4 +1110,126 @@ Proof.
   - intros tx. rewrite (rejected_height_indep tw tA), (rejected_height_indep tw tA (snd (script_get sc1 tx))). apply Hst.
   - exact HR.
   - exact HRB.
+Qed.
+(* 11. operation level: OConnect, the crash point as an index into its statement trace *)
+Lemma w_trace_pure sc t hash txs h t' :
+  memo_coherent sc t -> w_block_connected sc t (cache_block hash txs) h = Ok tt t' ->
+  stmts_of (flat_segs (tr_w_block sc t (cache_block hash txs) h)) = w_inserts sc t txs ++ w_delete (w_invalid sc t txs).
+Proof.
+  intros Hc. unfold w_block_connected, tr_w_block.
+  destruct (ti_update (w_cache t) (cache_block hash txs)) as [c|]; [|discriminate].
+  rewrite keys_cache_block. set (t1 := set_w_cache t c).
+  set (ds := filter (fun d => existsb (fun a => N.eqb (a_loc a) d) (db_apps t1)) txs).
+  destruct (breach_loop sc ds t1 []) as [inv t2|] eqn:E; cbn [bind]; [|discriminate].
+  assert (Hc1 : memo_coherent sc t1) by (eapply memo_coherent_fr; [| |exact Hc]; reflexivity).
+  destruct (bl_pure sc ds t1 [] inv t2 Hc1 E) as [A [B [C F]]]. cbn [List.app] in B.
+  intros _. rewrite flat_segs_cons, stmts_of_app. cbn [flat_seg flat_segs flat_map]. rewrite app_nil_r, A.
+  assert (Hdel : stmts_of (match inv with [] => [] | _ :: _ => tr_delete t2 inv false end) = w_delete inv) by apply tr_delete_norefund.
+  rewrite Hdel, B. unfold w_inserts, w_invalid, breached_rows. fold ds.
+  assert (E1 : flat_map (row_stmts sc t1) (flat_map (fun d => map (pair d) (uuids_of t1 d)) ds) =
+               flat_map (row_stmts sc t) (flat_map (fun d => map (pair d) (uuids_of t d)) ds)).
+  { apply flat_map_ext. intros x. apply (row_stmts_fr sc t t1). repeat split. }
+  assert (E2 : filter (row_invalid sc t1) (flat_map (fun d => map (pair d) (uuids_of t1 d)) ds) =
+               filter (row_invalid sc t) (flat_map (fun d => map (pair d) (uuids_of t d)) ds)).
+  { apply filter_ext_in'. intros x _. apply (row_invalid_fr sc t t1). repeat split. }
+  rewrite E1, E2. reflexivity.
+Qed.
+
+Lemma connect_decomp le t hash txs sc t' :
+  step le t (OConnect hash txs) sc = (t', OBlockRes) ->
+  exists tg tw,
+    gk_block_connected (fresh t) (gk_height t + 1) = Ok tt tg /\
+    w_block_connected sc tg (cache_block hash txs) (gk_height t + 1) = Ok tt tw /\
+    r_block_connected le sc tw (index_block hash txs) (gk_height t + 1) = Ok tt t'.
+Proof.
+  cbn [step]. unfold Consts.LISTENER_ORDER. cbn [run_listeners]. unfold listener_connected. cbn [Z.eqb Pos.eqb].
+  change (set_rpc_log t []) with (fresh t). change (gk_height (fresh t)) with (gk_height t).
+  destruct (gk_block_connected (fresh t) (gk_height t + 1)) as [[] tg|] eqn:EG; cbn [bind wrap]; [|intros H; inversion H].
+  destruct (w_block_connected sc tg (cache_block hash txs) (gk_height t + 1)) as [[] tw|] eqn:EW; cbn [bind wrap]; [|intros H; inversion H].
+  destruct (r_block_connected le sc tw (index_block hash txs) (gk_height t + 1)) as [[] tr|] eqn:ER; cbn [bind wrap]; [|intros H; inversion H].
+  intros H; inversion H; subst. exists tg, tw. repeat split; assumption.
+Qed.
+
+Lemma connect_stmts le t hash txs sc tg tw :
+  gk_block_connected (fresh t) (gk_height t + 1) = Ok tt tg ->
+  w_block_connected sc tg (cache_block hash txs) (gk_height t + 1) = Ok tt tw ->
+  op_stmts le t (OConnect hash txs) sc =
+  stmts_of (tr_gk_block (fresh t) (gk_height t + 1)) ++
+  stmts_of (flat_segs (tr_w_block sc tg (cache_block hash txs) (gk_height t + 1))) ++
+  stmts_of (flat_segs (tr_r_block le sc tw (index_block hash txs) (gk_height t + 1))).
+Proof.
+  intros HG HW. unfold op_stmts, op_micro, op_segs. unfold Consts.LISTENER_ORDER. cbn [tr_listeners].
+  change (set_rpc_log t []) with (fresh t). change (gk_height (fresh t)) with (gk_height t).
+  unfold listener_connected, tr_listener_connected. cbn [Z.eqb Pos.eqb]. rewrite HG, HW.
+  rewrite !flat_segs_app, !stmts_of_app. cbn [flat_segs flat_map flat_seg]. rewrite !app_nil_r.
+  destruct (r_block_connected le sc tw (index_block hash txs) (gk_height t + 1)); cbn [flat_segs flat_map]; rewrite ?app_nil_r; reflexivity.
+Qed.
+
+Lemma step_connect_block le t hash txs sc : not_abort (snd (step le t (OConnect hash txs) sc)) -> snd (step le t (OConnect hash txs) sc) = OBlockRes.
+Proof. cbn [step]. destruct (run_listeners _ _ _); cbn [wrap snd]; [reflexivity|intros []]. Qed.
+
+Lemma replay_connect_aux le sc1 sc2 t hash txs j tg tw tr d tBr :
+  Inv (fresh t) -> at_poll_boundary (fresh t) ->
+  gk_block_connected (fresh t) (gk_height t + 1) = Ok tt tg ->
+  w_block_connected sc1 tg (cache_block hash txs) (gk_height t + 1) = Ok tt tw ->
+  r_block_connected le sc1 tw (index_block hash txs) (gk_height t + 1) = Ok tt tr ->
+  d = execs (db_of tg) (firstn j (w_inserts sc1 tg txs)) ->
+  replay_ok tg d txs sc1 sc2 -> rej_stable (fresh t) sc1 sc2 ->
+  step le (restart t d) (OConnect hash txs) sc2 = (tBr, OBlockRes) ->
+  eq_up_to_stamp (db_of tBr) (db_of tr).
+Proof.
+  intros HIf HB HG HW HR Hd Hok Hst E2.
+  destruct (connect_decomp le (restart t d) hash txs sc2 tBr E2) as [tgB [tBw [HGB [HWB HRB]]]].
+  assert (HGW : gw_connected sc2 (restart (fresh t) d) hash txs = Ok tt tBw).
+  { unfold gw_connected. exact (eq_trans (f_equal (fun r => bind r (fun _ t1 => w_block_connected sc2 t1 (cache_block hash txs) (gk_height t + 1))) HGB) HWB). }
+  subst d.
+  exact (replay_block le sc1 sc2 (fresh t) hash txs j tg tw tr tBw tBr HIf HB HG HW HR Hok Hst HGW HRB).
+Qed.
+
+Lemma connect_crash_db le t hash txs sc1 j tg tw :
+  car_memo t = [] ->
+  gk_block_connected (fresh t) (gk_height t + 1) = Ok tt tg ->
+  w_block_connected sc1 tg (cache_block hash txs) (gk_height t + 1) = Ok tt tw ->
+  (j <= length (w_inserts sc1 tg txs))%nat ->
+  execs (db_of t) (firstn (length (stmts_of (tr_gk_block (fresh t) (gk_height t + 1))) + j) (op_stmts le t (OConnect hash txs) sc1))
+  = execs (db_of tg) (firstn j (w_inserts sc1 tg txs)).
+Proof.
+  intros Hm HG HW Hj.
+  assert (HcA : memo_coherent sc1 tg).
+  { apply memo_nil_coherent. destruct (gk_block_frame _ _ _ HG) as [_ [_ [G3 _]]]. rewrite G3. exact Hm. }
+  rewrite (connect_stmts le t hash txs sc1 tg tw HG HW), (w_trace_pure sc1 tg hash txs _ tw HcA HW).
+  set (SG := stmts_of (tr_gk_block (fresh t) (gk_height t + 1))).
+  rewrite firstn_app. rewrite (firstn_all2 SG) by lia.
+  replace (length SG + j - length SG)%nat with j by lia.
+  rewrite execs_app. pose proof (J_gk_block (fresh t) (gk_height t + 1)) as JG. rewrite HG in JG. destruct JG as [DG _].
+  change (db_of (fresh t)) with (db_of t) in DG. fold SG in DG. rewrite <- DG.
+  rewrite <- app_assoc, firstn_app. replace (j - length (w_inserts sc1 tg txs))%nat with 0%nat by lia. cbn [firstn]. rewrite app_nil_r. reflexivity.
+Qed.
+
+(* REPLAY OF A BLOCK, operation level.  t a reachable poll-boundary state; OConnect with the node answering sc1, killed
+   when ng + j statements of its durable trace are done (ng = the gatekeeper's: 0 or 1; j <= the watcher's tracker
+   inserts: anywhere from the purge's commit to just before the watcher's DELETE); restart; OConnect of the same block
+   with the node answering sc2.  Outside the recorded class and with stable rejections: same tables up to the stamp. *)
+Theorem replay_connect le t hash txs sc1 sc2 j tg :
+  Inv t -> at_poll_boundary t ->
+  not_abort (snd (step le t (OConnect hash txs) sc1)) ->
+  gk_block_connected (fresh t) (gk_height t + 1) = Ok tt tg ->
+  (j <= length (w_inserts sc1 tg txs))%nat ->
+  let ng := length (stmts_of (tr_gk_block (fresh t) (gk_height t + 1))) in
+  let d := execs (db_of t) (firstn (ng + j) (op_stmts le t (OConnect hash txs) sc1)) in
+  replay_ok tg d txs sc1 sc2 -> rej_stable t sc1 sc2 ->
+  not_abort (snd (step le (restart t d) (OConnect hash txs) sc2)) ->
+  eq_up_to_stamp (db_of (fst (step le (restart t d) (OConnect hash txs) sc2))) (db_of (fst (step le t (OConnect hash txs) sc1))).
+Proof.
+  intros HI [Hre Hm] Hn HG Hj ng d.
+  assert (HIf : Inv (fresh t)) by (eapply inv_frame; [|exact HI]; repeat split).
+  pose proof (step_connect_block le t hash txs sc1 Hn) as Hx.
+  destruct (step le t (OConnect hash txs) sc1) as [tr x] eqn:E1. cbn [fst snd] in *. subst x.
+  destruct (connect_decomp le t hash txs sc1 tr E1) as [tg' [tw [HG' [HW HR]]]].
+  rewrite HG in HG'. inversion HG'; subst tg'. clear HG'.
+  assert (Hd : d = execs (db_of tg) (firstn j (w_inserts sc1 tg txs))) by (apply (connect_crash_db le t hash txs sc1 j tg tw Hm HG HW Hj)).
+  clearbody d. intros Hok Hst Hn2.
+  pose proof (step_connect_block le (restart t d) hash txs sc2 Hn2) as Hy.
+  destruct (step le (restart t d) (OConnect hash txs) sc2) as [tBr y] eqn:E2. cbn [fst snd] in *. subst y.
+  exact (replay_connect_aux le sc1 sc2 t hash txs j tg tw tr d tBr HIf (conj Hre Hm) HG HW HR Hd Hok Hst E2).
 Qed.
